@@ -932,8 +932,41 @@ func (m *Model) scan(args []string) (respc.Reply, bool) {
 	out := "objects"
 	desc := false
 	var pats []string
+	var wheres []func(o *Obj) bool
 	for i := 2; i < len(args); i++ {
 		switch strings.ToLower(args[i]) {
+		case "where":
+			// WHERE name min max  |  WHERE "name OP number"
+			if i+1 < len(args) && strings.ContainsAny(args[i+1], "<>=!") {
+				f, ok := parseSimpleExpr(args[i+1])
+				if !ok {
+					return respc.Reply{}, false
+				}
+				wheres = append(wheres, f)
+				i++
+				continue
+			}
+			if i+3 >= len(args) || strings.Contains(args[i+1], ".") {
+				return respc.Reply{}, false
+			}
+			name := args[i+1]
+			lo, err1 := strconv.ParseFloat(args[i+2], 64)
+			hi, err2 := strconv.ParseFloat(args[i+3], 64)
+			if err1 != nil || err2 != nil {
+				return respc.Reply{}, false
+			}
+			wheres = append(wheres, func(o *Obj) bool {
+				v, ok := o.Fields[name]
+				if !ok {
+					v = Zero
+				}
+				if v.Kind != KNumber {
+					// only numeric fields are modelled
+					return v.Kind < KNumber && false
+				}
+				return v.Num >= lo && v.Num <= hi
+			})
+			i += 3
 		case "limit":
 			if i+1 >= len(args) {
 				return respc.Reply{}, false
@@ -979,6 +1012,11 @@ func (m *Model) scan(args []string) (respc.Reply, bool) {
 				ok = true
 			}
 		}
+		for _, w := range wheres {
+			if !w(col[id]) {
+				ok = false
+			}
+		}
 		if ok {
 			sel = append(sel, id)
 		}
@@ -1004,6 +1042,48 @@ func (m *Model) scan(args []string) (respc.Reply, bool) {
 		items = append(items, respc.Array(e...))
 	}
 	return respc.Array(respc.Int(cursor), respc.Array(items...)), true
+}
+
+// parseSimpleExpr handles `name OP number` (OP in > >= < <= == !=); a missing
+// field reads as 0; only numeric field values are modelled (others: no match
+// claimed -> the caller restricts the alphabet to numeric values for such fields).
+func parseSimpleExpr(e string) (func(o *Obj) bool, bool) {
+	parts := strings.Fields(e)
+	if len(parts) != 3 || !simpleWord(parts[0]) {
+		return nil, false
+	}
+	n, err := strconv.ParseFloat(parts[2], 64)
+	if err != nil {
+		return nil, false
+	}
+	name, op := parts[0], parts[1]
+	switch op {
+	case ">", ">=", "<", "<=", "==", "!=":
+	default:
+		return nil, false
+	}
+	return func(o *Obj) bool {
+		v := 0.0
+		if f, ok := o.Fields[name]; ok {
+			if f.Kind != KNumber {
+				return false
+			}
+			v = f.Num
+		}
+		switch op {
+		case ">":
+			return v > n
+		case ">=":
+			return v >= n
+		case "<":
+			return v < n
+		case "<=":
+			return v <= n
+		case "==":
+			return v == n
+		}
+		return v != n
+	}, true
 }
 
 func simpleWord(s string) bool {
